@@ -1750,6 +1750,17 @@ pub fn eval_ternary_equality(lhs: &Value, rhs: &Value) -> Option<bool> {
     },
     Value::Null(_) => match rhs {
       Value::Null(_) => Some(true),
+      // null differs from every value that has an equality of its own, whichever side it is on
+      Value::Boolean(_)
+      | Value::Number(_)
+      | Value::String(_)
+      | Value::Context(_)
+      | Value::Date(_)
+      | Value::Time(_)
+      | Value::DateTime(_)
+      | Value::DaysAndTimeDuration(_)
+      | Value::YearsAndMonthsDuration(_)
+      | Value::List(_) => Some(false),
       _ => None,
     },
     Value::List(ls) => match rhs {
